@@ -453,6 +453,9 @@ func check(prop, tier string) int {
 	if len(plan.Micro) > 0 {
 		phases = append(phases, &phaseT{scen: plan.Micro})
 	}
+	if len(plan.RacePhase) > 0 {
+		phases = append(phases, &phaseT{race: true, scen: plan.RacePhase})
+	}
 	scenPhase := map[string]*phaseT{}
 	nWorkers := 16
 	if v := os.Getenv("VSIM_WORKERS"); v != "" {
@@ -869,6 +872,13 @@ func replayCmd(file string) int {
 		for _, sp := range p.Micro {
 			if sp.Name == rf.Scenario {
 				race = false
+			}
+		}
+	}
+	if p, ok := plans[rf.Property]; ok {
+		for _, sp := range p.RacePhase {
+			if sp.Name == rf.Scenario {
+				race = true
 			}
 		}
 	}
